@@ -3,9 +3,11 @@
 package main
 
 import (
+	"bytes"
 	"fmt"
 	"math/rand"
 	"os"
+	"os/exec"
 	"strconv"
 	"strings"
 	"time"
@@ -22,6 +24,8 @@ import (
 //   rcpat  <pat> <emax> <indel>
 //   find|filter|all|best|is <pat> <emax> <indel> <rc> <seq> <circ> <begin> <length>
 //   locate <pat> <seq>
+//   budget <pat> <emax> <indel> <seq>      MakeApatPattern with any budget (also > 63) + FindAllIndex, run in a CHILD process
+//                                          (a budget > 63 overran the r[] array of ManberSub/ManberIndel: stack smashing)
 
 type c10 struct{}
 
@@ -372,6 +376,9 @@ func (c10) Gen(rng *rand.Rand, tier string, emit func(string)) {
 		c10Case("all", "ACGTACGT", 1, true, false, []byte("acgtcgt"), false, 0, -1),
 		c10Case("best", "ACGTACGT", 2, true, false, []byte("acgtagt"), false, 0, -1),
 		c10Case("all", "A", 1, true, false, []byte("ccc"), false, 0, -1),                          // pattern of length 1: backtracking loop not entered
+		c10Case("best", "ACGTA", 1, true, false, []byte("cgtatttttttt"), false, 0, -1),            // round 2: best hit with a shifted (negative) start was discarded: matched=false
+		c10Case("best", "ACGTACGT", 2, true, false, []byte("gtacgtttttttt"), false, 0, -1),        // two leading symbols deleted
+		c10Case("best", "ACGTA", 1, true, false, []byte("ttttcgtatttttttt"), false, 4, -1),        // the same at a window start > 0 (always worked: start >= 0)
 		c10Case("all", "AC", 1, true, false, []byte("ggcgg"), false, 0, -1),
 		c10Case("find", "ACGT", 1, false, false, []byte("acgt"), false, 0, -1),
 		c10Case("find", "ACGT", 1, false, false, []byte("acg"), false, 0, -1),
@@ -418,6 +425,20 @@ func (c10) Gen(rng *rand.Rand, tier string, emit func(string)) {
 		c10Case("find", strings.Repeat("ACGT", 8)+"A", 2, true, false, []byte(strings.Repeat("acgt", 20)), false, 1, -1),
 		c10Case("find", strings.Repeat("ACGT", 15)+"ACG", 63, false, false, []byte(strings.Repeat("acgt", 20)), false, 0, -1),
 		c10Case("find", strings.Repeat("ACGT", 15)+"ACG", 63, true, false, []byte(strings.Repeat("acgt", 20)), false, 0, -1),
+		// round 2: the re-aligner's symbol comparison (_samenuc) vs the compiled classes: X in the pattern, ambiguity codes in the sequence
+		c10Case("find", "AXGT", 1, true, false, []byte("ttacgattt"), false, 0, -1),
+		c10Case("all", "AXGT", 1, true, false, []byte("ttacgattt"), false, 0, -1),  // X = any base for the automaton, nothing for _samenuc: dropped
+		c10Case("best", "AXGT", 1, true, false, []byte("ttacgattt"), false, 0, -1), // ... and BestMatch reports 2 errors with budget 1
+		c10Case("all", "AXGT", 1, true, false, []byte("ttacgtttt"), false, 0, -1),  // no error: not re-aligned, kept
+		c10Case("find", "ACGT", 1, true, false, []byte("ttacntttt"), false, 0, -1), // sequence n: 1 error for the automaton ...
+		c10Case("all", "ACGT", 1, true, false, []byte("ttacntttt"), false, 0, -1),  // ... 0 for the re-aligner
+		c10Case("best", "ACGT", 1, true, false, []byte("ttacntttt"), false, 0, -1),
+		c10Case("all", "ACGT", 1, true, false, []byte("ttacuatttt"), false, 0, -1), // sequence u matches T for _samenuc only
+		c10Case("find", "ACGT", 1, false, false, []byte("ttacntttt"), false, 0, -1),
+		c10Case("find", "ACGT", 1, false, true, []byte("ttacntttt"), false, 0, -1), // both strands: n is complemented to n
+		c10Case("find", "!ACGT", 0, false, false, []byte("ttncgtt-cgt"), false, 0, -1), // a negated position accepts ambiguity codes and non-letters
+		c10Case("find", "!ACGT", 0, false, true, []byte("ttacgn-acg-tt"), false, 0, -1),
+		c10Case("find", "RYN", 0, false, false, []byte("rynagnryaacnn"), false, 0, -1),  // pattern classes never accept the same ambiguity code in the sequence
 		// obligatory positions with indels: start exception, no insertion after '#', insertion before
 		c10Case("find", "A#C", 1, true, false, []byte("c"), false, 0, -1),
 		c10Case("find", "A#C", 1, true, false, []byte("tc"), false, 0, -1),
@@ -439,6 +460,24 @@ func (c10) Gen(rng *rand.Rand, tier string, emit func(string)) {
 		c10Case("find", "ACGTACGT", 2, false, false, []byte("acg"), true, 0, -1), // pattern longer than the circle
 		c10Case("is", "ACGT", 0, false, false, []byte("gtttac"), true, 0, -1),
 		c10Case("filter", "ACGT", 1, false, false, []byte("gtttacgtttac"), true, 0, -1),
+		// error budgets around MAX_PAT_ERR (round 2: r[2*MAX_PAT_ERR+2] overrun, SIGSEGV; buildPattern now rejects >= 64); child process
+		"budget " + c10H("ACGTACGT") + " 62 0 " + c10H("ttttacgtacgtttttacgaacgttt"),
+		"budget " + c10H("ACGTACGT") + " 63 0 " + c10H("ttttacgtacgtttttacgaacgttt"),
+		"budget " + c10H("ACGTACGT") + " 63 1 " + c10H("ttttacgtacgtttttacgaacgttt"),
+		"budget " + c10H("ACGTACGT") + " 64 0 " + c10H("ttttacgtacgtttttacgaacgttt"),
+		"budget " + c10H("ACGTACGT") + " 64 1 " + c10H("ttttacgtacgtttttacgaacgttt"),
+		"budget " + c10H("ACGTACGT") + " 65 1 " + c10H("ttttacgtacgtttttacgaacgttt"),
+		"budget " + c10H("A#CGTACGT") + " 100 0 " + c10H("ttttacgtacgtttttacgaacgttt"),
+		"budget " + c10H("ACGT") + " 1000 1 " + c10H("acgt"),
+		"budget " + c10H("ACGT") + " 1073741824 0 " + c10H("acgt"),
+		"budget " + c10H(strings.Repeat("ACGT", 15)+"ACG") + " 63 1 " + c10H(strings.Repeat("acgt", 20)),
+		"budget " + c10H(strings.Repeat("ACGT", 15)+"ACG") + " 64 1 " + c10H(strings.Repeat("acgt", 20)),
+		"budget " + c10H("A[") + " 64 0 " + c10H("acgt"), // malformed pattern AND too large a budget
+		"pat " + c10H("ACGT") + " 63 1",
+		"pat " + c10H("ACGT") + " 64 0",
+		"pat " + c10H("ACGT") + " 64 1",
+		"pat " + c10H("A#C![GT]") + " 200 0",
+		"rcpat " + c10H("ACGT") + " 64 0",
 		"locate " + c10H("ACGT") + " " + c10H("cgttt"),
 		"locate " + c10H("ACGT") + " " + c10H("ttacgttt"),
 		"locate " + c10H("ACGT") + " " + c10H("acgt"),
@@ -508,6 +547,10 @@ func (c10) Gen(rng *rand.Rand, tier string, emit func(string)) {
 				op = "rcpat"
 			}
 			emit(fmt.Sprintf("%s %s %d %d", op, hx(b), rng.Intn(5), rng.Intn(2)))
+		case k < 7: // budgets around MAX_PAT_ERR, in a child process
+			e := []int{60, 61, 62, 63, 63, 64, 64, 65, 66, 100, 127, 128, 129, 255, 256, 1000, 65536}[rng.Intn(17)]
+			pat := c10RandPat(rng, rng.Intn(2) == 0)
+			emit(fmt.Sprintf("budget %s %d %d %s", c10H(pat), e, rng.Intn(2), hx(c10RandSeq(rng, rng.Intn(40), 0))))
 		case k < 12: // complement of well-formed patterns
 			emit(fmt.Sprintf("rcpat %s %d %d", c10H(c10RandPat(rng, true)), rng.Intn(5), rng.Intn(2)))
 		case k < 20: // LocatePattern directly
@@ -668,6 +711,19 @@ func c10IsLetters(s []byte) bool {
 	return true
 }
 
+// letters of the IUPAC table or X (sDnaCode: any base), at least one X
+func c10IupacPlusX(pat string) bool {
+	x := false
+	for _, c := range []byte(strings.ToUpper(pat)) {
+		if c == 'X' {
+			x = true
+		} else if _, ok := c10Iupac[c]; !ok {
+			return false
+		}
+	}
+	return x
+}
+
 func c10PlainIupac(pat string) bool {
 	for _, c := range []byte(strings.ToUpper(pat)) {
 		if _, ok := c10Iupac[c]; !ok {
@@ -687,6 +743,7 @@ func (c10) Exec(c string) (string, []Fail) {
 		fails = append(fails, Fail{Sig: sig, Text: fmt.Sprintf(format, a...)})
 	}
 	stat("op:" + f[0])
+	keepErr := f[0] == "budget" // a rejection that is the point of the case (budget guard) is not a trivial case
 	res := guardT(10*time.Second, func() string {
 		if os.Getenv("C10DEBUG") != "" {
 			defer func() {
@@ -706,8 +763,14 @@ func (c10) Exec(c string) (string, []Fail) {
 			pat := string(pb)
 			toks, sane := c10Parse(pat)
 			p, err := obiapat.MakeApatPattern(pat, e, f[3] == "1")
+			if err == nil && e > 63 {
+				fail("budget.overrun", "MakeApatPattern accepts the budget %d > 63 (r[] of ManberSub/ManberIndel would be overrun)", e)
+			}
 			if err != nil {
-				if sane {
+				if e > 63 {
+					keepErr = true
+					stat("pat:budget>63-rejected")
+				} else if sane {
 					fail("pat.rejected", "well-formed pattern %q rejected: %v", pat, err)
 				}
 				if f[0] == "pat" {
@@ -774,6 +837,57 @@ func (c10) Exec(c string) (string, []Fail) {
 				}
 			}
 			return c10ShowPat(r, true)
+
+		case f[0] == "budget" && len(f) == 5:
+			pb, ok1 := unhx(f[1])
+			e, e1 := strconv.Atoi(f[2])
+			seq, ok2 := unhx(f[4])
+			if !ok1 || !ok2 || e1 != nil || e < 0 || e > 1<<30 || (f[3] != "0" && f[3] != "1") || strings.IndexByte(string(pb), 0) >= 0 {
+				return "bad-op"
+			}
+			if os.Getenv("C10CHILD") == "1" {
+				// in the child: the real calls
+				p, err := obiapat.MakeApatPattern(string(pb), e, f[3] == "1")
+				if err != nil {
+					return "err"
+				}
+				if p.Len() >= c10MaxPatLen {
+					return "unmodelled"
+				}
+				bs := obiseq.NewBioSequence("x", seq, "")
+				as, err := obiapat.MakeApatSequence(bs, false)
+				if err != nil {
+					return "seqerr"
+				}
+				return "ok " + c10Hits(p.FindAllIndex(as, 0, -1))
+			}
+			res, crashed := c10Child(c)
+			if e > 63 {
+				stat("budget:>63")
+				if crashed {
+					fail("budget.overrun", "MakeApatPattern accepts the budget %d > 63 and the search dies (%s): r[2*MAX_PAT_ERR+2] of ManberSub/ManberIndel overrun", e, res)
+					return "crash"
+				}
+				if res != "err" {
+					fail("budget.overrun", "MakeApatPattern accepts the budget %d > 63: the r[2*MAX_PAT_ERR+2] array of ManberSub/ManberIndel is overrun (result %s)", e, res)
+				}
+			} else if crashed {
+				fail("budget.crash", "child died: %s", res)
+				return "crash"
+			}
+			if toks, sane := c10Parse(string(pb)); sane && strings.HasPrefix(res, "ok ") && f[3] == "0" && e > 0 {
+				low := bytes.ToLower(seq)
+				var want [][3]int
+				for i := 0; i+len(toks) <= len(low); i++ {
+					if k := c10Hamming(toks, low[i:i+len(toks)]); k <= e {
+						want = append(want, [3]int{i, i + len(toks), k})
+					}
+				}
+				if "ok "+c10Hits(want) != res {
+					fail("budget.sub", "budget %d: reported %s, Hamming reference %s", e, res, c10Hits(want))
+				}
+			}
+			return res
 
 		case f[0] == "locate" && len(f) == 3:
 			p, ok1 := unhx(f[1])
@@ -1049,6 +1163,9 @@ func (c10) Exec(c string) (string, []Fail) {
 							if d != h[2] {
 								// the re-aligner's own reading of IUPAC (two symbols match when they share a base) is accepted too
 								d = c10Edit(m, func(j int, c byte) bool { return c10Compat(pat[j], c) }, low[h[0]:h[1]])
+								if d == h[2] {
+									stat("observed:all.errcount-by-samenuc(sequence-ambiguity-code)")
+								}
 							}
 						} else {
 							if h[1]-h[0] != m {
@@ -1077,6 +1194,34 @@ func (c10) Exec(c string) (string, []Fail) {
 					if exists != (len(r) > 0) {
 						fail("all.iff"+sigc, "a substring within %d edits exists: %v; AllMatches reports %s", e, exists, c10Hits(r))
 					}
+					// completeness with locality (theorem allMatches_complete): every end position Q whose best substring is within
+					// the budget (k edits) is represented by a returned match with at most k errors lying around it: the kept hit h is
+					// linked to the raw hit r = (Q-m, Q, k) by a chain (h.start > r.start-m-2e; at most e replacements, each moving the
+					// start right by less than m+2e) and the re-alignment fragment of h is inside [h.start-2e, h.start+m+4e)
+					if !circ {
+						for q := 1; q <= len(win); q++ {
+							if best[q] > e {
+								continue
+							}
+							Q := b0 + q
+							ok := false
+							for _, x := range r {
+								if x[2] <= best[q] && x[0] > Q-2*m-4*e-1 && x[1] < Q+e*(m+2*e)+m+6*e+1 {
+									ok = true
+								}
+							}
+							if !ok {
+								fail("all.cover"+sigc, "a substring ending at %d is within %d edits of %q but no returned match with <= %d errors lies around it: %s", Q, best[q], pat, best[q], c10Hits(r))
+								break
+							}
+						}
+						stat("all:cover-checked")
+					}
+				}
+				if c10IupacPlusX(pat) && !rc && indel && e > 0 && !circ && !long && len(raw) > 0 && len(r) == 0 {
+					// OBSERVATION (proposed finding, see lib/cfg/C10.py): pattern letter X is compiled as "any base" (sDnaCode) but
+					// _samenuc knows no X (_iupac['x'] = 0): the re-alignment counts every X as an error and the match is dropped
+					stat("observed:all.x-pattern-match-dropped")
 				}
 				if long {
 					return "unmodelled"
@@ -1084,6 +1229,11 @@ func (c10) Exec(c string) (string, []Fail) {
 				return c10Hits(r)
 			case "best":
 				st, en, nerr, matched := p.BestMatch(fresh, begin, length)
+				if !circ && !long && matched != (len(raw) > 0) {
+					// completeness: on a linear sequence every raw hit ends inside the sequence, so BestMatch has a match to report
+					// whenever FindAllIndex has one (defect found in round 2: a best hit with a shifted, negative start was discarded)
+					fail("best.iff"+sigx, "FindAllIndex reports %s but BestMatch says matched=%v", c10Hits(raw), matched)
+				}
 				if matched {
 					if st < 0 || st > en || en > n {
 						fail("best.span"+sigc, "span [%d,%d) is not inside the sequence of length %d", st, en, n)
@@ -1102,6 +1252,12 @@ func (c10) Exec(c string) (string, []Fail) {
 							fail("best.errcount"+sigc, "span [%d,%d) = %q reported with %d errors, distance to %q is %d", st, en, low[st:en], nerr, pat, d)
 						}
 					}
+				}
+				if matched && nerr > e && c10IupacPlusX(pat) {
+					stat("observed:best.x-pattern-errcount>budget")
+				}
+				if matched && nerr > e && c10PlainIupac(pat) && !rc && !circ {
+					fail("best.budget"+sigc, "BestMatch reports %d errors with budget %d", nerr, e)
 				}
 				if long {
 					return "unmodelled"
@@ -1133,10 +1289,36 @@ func (c10) Exec(c string) (string, []Fail) {
 			fail(f[0]+".panic", "panic")
 		}
 	}
-	if res == "bad-op" || res == "err" || res == "err0" {
+	if res == "bad-op" || ((res == "err" || res == "err0") && !keepErr) {
 		caseTrivial = true
 	}
 	return res, fails
+}
+
+// c10Child runs one case line in a child process (the harness itself in exec mode) and returns its result; crashed = the
+// child did not answer (killed by a signal, abort() of the stack protector, ...): the text is then the end of its stderr
+func c10Child(line string) (string, bool) {
+	cmd := exec.Command(os.Args[0], "C10", "exec")
+	cmd.Env = append(os.Environ(), "C10CHILD=1")
+	cmd.Stdin = strings.NewReader(line + "\n")
+	var out, errb bytes.Buffer
+	cmd.Stdout = &out
+	cmd.Stderr = &errb
+	err := cmd.Run()
+	for _, l := range strings.Split(out.String(), "\n") {
+		f := strings.Split(l, "\t")
+		if len(f) >= 3 && f[0] == "C" {
+			return f[2], false
+		}
+	}
+	msg := strings.TrimSpace(errb.String())
+	if i := strings.IndexByte(msg, '\n'); i >= 0 {
+		msg = msg[:i]
+	}
+	if len(msg) > 80 {
+		msg = msg[:80]
+	}
+	return fmt.Sprintf("%v: %s", err, msg), true
 }
 
 // generator / branch statistics of one search
